@@ -29,9 +29,11 @@ TEXTS = {
  "C02": ("theorems (all histories of the heap model): every table stays rectangular under every operation, failed ones included; ragged "
          "input is refused; cells of every new table (copy / selection / stacking / row append) are those of its sources; row views = "
          "column views; transposing twice gives back the cells; " + CORR + ", plus pure-oracle streams for row append with cells of every "
-         "scalar kind and for every way of constructing a table from columns of equal or unequal lengths",
-         TRUST.format("") + "The rowappend / construct streams are decided by the oracle alone (the model says nothing about bytes cells).",
-         "Rocq proof: rectangularity invariant and cell theorems over the heap model; refinement check + oracle streams"),
+         "scalar kind and for every way of constructing a table from columns of equal or unequal lengths"
+         + TR.format("the rectangularity guards of Vector.__new__, Table.__init__ and Table.__setattr__ over column lengths - EqRect.v, 7 theorems: "
+                     "the constructor refuses exactly the ragged inputs, the dispatch never hands it any, an accepted replacement keeps the table rectangular"),
+         TRUST.format(" and the translator") + "The rowappend / construct streams are decided by the oracle alone (the model says nothing about bytes cells).",
+         "Rocq proof: rectangularity invariant and cell theorems over the heap model; the length guards regenerated from source and re-proved; refinement check + oracle streams"),
  "C03": ("theorems (all vectors, all programs over a 23-operation alphabet, by induction): vectors typed by inference are truthful; every "
          "operation that does not re-infer (setitem/promotion, unary, <<, >>, cast, fillna, dropna, copy(new_values), to_object, new, "
          "getitem, sort, rows, transposes) preserves truthfulness; write-back of any element is accepted and keeps the dtype, and "
